@@ -8,7 +8,6 @@ the path (what `polygon & path` is made of) is a sub-arc, hence an interval [s0,
 and multiplicities of pieces are then exact 1-D interval arithmetic instead of fragile overlays of
 (nearly) collinear line work.
 """
-import shapely
 from shapely.geometry import Point
 
 EPS = 1e-12
@@ -142,13 +141,16 @@ def _crs():
 def az_distance(a, b):
     """Azimuthal-equidistant distance (metres) from a to b, both given in the data CRS (PlateCarree).
 
-    emsarray documents `AzimuthalEquidistant(a.x, a.y).project_geometry(b).distance(ORIGIN)`: the projection is
-    centred on the RAW numbers of a taken as geodetic lon/lat, b goes through cartopy's PlateCarree -> geodetic
-    conversion, and the radial distance of an azimuthal equidistant projection is the geodesic distance.
+    emsarray documents the distance in an azimuthal equidistant projection centred on a, whose radial distance is
+    the geodesic distance: both points go through cartopy's PlateCarree -> geodetic conversion (which is not the
+    identity with an ellipsoidal PlateCarree, PROJ >= 9.x) and the WGS84 geodesic between them is measured.
+    (Before the repository fix recorded as C18 'platecarree-latitude-offset' the projection was centred on the RAW
+    numbers of a, which made d(a, a) = 13 km at latitude -19 in this environment.)
     """
     pc, gd, geod = _crs()
+    ax, ay = gd.transform_point(a[0], a[1], pc)
     bx, by = gd.transform_point(b[0], b[1], pc)
-    return float(geod.inv(a[0], a[1], float(bx), float(by))[2])
+    return float(geod.inv(float(ax), float(ay), float(bx), float(by))[2])
 
 
 class Metric:
